@@ -75,6 +75,11 @@ type Job struct {
 	// NoAcctIndex: the node runs with the store option indexByAccount=false (replay protection must not depend on
 	// an optional index)
 	NoAcctIndex bool `json:"no_acct_index,omitempty"`
+	// StaleView: between the inclusion of the base and the replay attempts, a view of the chain from BEFORE the inclusion
+	// (the state machine's TimeMachine, what a not-yet-refreshed mempool copy or an RPC query at an old height is) checks
+	// the base and every variant, as re-gossiped transactions are checked. Reading an old view must not change what the
+	// live chain accepts.
+	StaleView bool `json:"stale_view,omitempty"`
 }
 
 func (j Job) cfg() []func(*lib.Config) {
@@ -117,6 +122,7 @@ type Hit struct {
 	Commit   string   `json:"commit,omitempty"`
 	SameCont bool     `json:"decodes_to_same_content"`
 	NoAcct   bool     `json:"no_account_index,omitempty"`
+	Stale    bool     `json:"stale_view,omitempty"`
 }
 
 type ClassStat struct {
@@ -271,7 +277,7 @@ func runReplay(j Job) (res Result) {
 		}
 		st.Executed++
 		if st.Executed <= 2 {
-			res.Hits = append(res.Hits, Hit{NoAcct: j.NoAcctIndex, Kind: kind, Class: class, Classes: v.Classes, Depth: depth, Where: where, Desc: v.Desc, Base: j.Base.String(), BaseHex: baseHex,
+			res.Hits = append(res.Hits, Hit{NoAcct: j.NoAcctIndex, Stale: j.StaleView, Kind: kind, Class: class, Classes: v.Classes, Depth: depth, Where: where, Desc: v.Desc, Base: j.Base.String(), BaseHex: baseHex,
 				VarHex: hex.EncodeToString(v.Raw), Diff: txlab.DescribeDiff(diff, w), SameCont: sameContent(b.Raw, v.Raw)})
 		}
 	}
@@ -357,6 +363,24 @@ func runReplay(j Job) (res Result) {
 		return
 	}
 	res.Parts["base-committed"]++
+	if j.StaleView {
+		for back := uint64(1); back <= 2 && cm.Height > back; back++ {
+			tm, e := l.C.FSM.TimeMachine(cm.Height - back)
+			if e != nil || tm == nil {
+				res.Notes = append(res.Notes, fmt.Sprintf("no view of height %d: %v", cm.Height-back, e))
+				continue
+			}
+			func() {
+				defer func() { _ = recover() }()
+				_, _ = tm.CheckTx(b.Raw, crypto.HashString(b.Raw), nil)
+				for _, v := range d1 {
+					_, _ = tm.CheckTx(v.Raw, crypto.HashString(v.Raw), nil)
+					res.Parts["stale-view-checks"]++
+				}
+			}()
+			tm.Discard()
+		}
+	}
 	for step := 1; step <= 2; step++ {
 		where := fmt.Sprintf("block k+%d", step)
 		empty := l.ProbeBlock(nil, false)
@@ -827,6 +851,12 @@ func main() {
 			jobs = append(jobs, Job{Part: "replay", Base: b, Thorough: !r.Quick(), NoAcctIndex: true})
 		}
 	}
+	for _, b := range bases {
+		// the same variant space with a stale view checking the transactions between inclusion and replay (quick: sends)
+		if !r.Quick() || (b.Msg == fsm.MessageSendName && b.Memo == "" && (b.Kind == txlab.KBLS || b.Kind == txlab.KMS2 || b.Kind == txlab.KRLP)) {
+			jobs = append(jobs, Job{Part: "replay", Base: b, Thorough: !r.Quick(), StaleView: true})
+		}
+	}
 	crossBases := bases[:1]
 	if !r.Quick() {
 		crossBases = bases
@@ -941,11 +971,15 @@ func main() {
 		}
 		what := fmt.Sprintf("base %s; %s at %s: %s\n   base bytes    %s\n   variant bytes %s\n   state beyond the reference block: %v\n   decodes to the same signed content: %v; %s",
 			h.Base, h.Kind, h.Where, h.Desc, h.BaseHex, h.VarHex, h.Diff, h.SameCont, h.Commit)
+		if h.Stale {
+			sig += ":after-stale-view-check"
+			what = "a view from before the inclusion checked the same transactions first; " + what
+		}
 		if h.NoAcct {
 			sig += ":index-by-account-off"
 			what = "node configured with indexByAccount=false; " + what
 		}
-		r.Violation(sig, what, map[string]any{"part": "replay", "base": h.Base, "variant_hex": h.VarHex, "class": h.Class, "where": h.Where, "no_account_index": h.NoAcct})
+		r.Violation(sig, what, map[string]any{"part": "replay", "base": h.Base, "variant_hex": h.VarHex, "class": h.Class, "where": h.Where, "no_account_index": h.NoAcct, "stale_view": h.Stale})
 		if len(r.Samples) < 6 && h.Depth <= 1 {
 			r.AddSample(h)
 		}
@@ -1016,6 +1050,7 @@ func doReplay(r *mc.Run) {
 		VarHex string `json:"variant_hex"`
 		Class  string `json:"class"`
 		NoAcct bool   `json:"no_account_index"`
+		Stale  bool   `json:"stale_view"`
 	}
 	if err := r.LoadReplay(&rp); err != nil {
 		fmt.Println("cannot load replay:", err)
@@ -1029,7 +1064,7 @@ func doReplay(r *mc.Run) {
 	}
 	ev := 0
 	for i := 0; i < 5; i++ {
-		res := runJob(Job{Part: "replay", Base: base, Only: rp.VarHex, NoAcctIndex: rp.NoAcct})
+		res := runJob(Job{Part: "replay", Base: base, Only: rp.VarHex, NoAcctIndex: rp.NoAcct, StaleView: rp.Stale})
 		ev += res.Evaluations
 		n := 0
 		for _, h := range res.Hits {
